@@ -1151,8 +1151,10 @@ func TestC09(t *testing.T) {
 	r := mc.NewRun(t, "C09", mc.Exploration)
 	r.Rule = "offenders = every valid packet of rtr.CasesP (all path shapes x position x interface/arrival choice) given exactly one defect " +
 		"(cause) out of the list in coverage.causes; sweeps: (A) causes x {SCION,EPIC} x ext-header layouts x L4 {UDP, none, TCP, SCMP echo/" +
-		"traceroute request, SCMP error} x {single,multi BR} x SCMP auth {off,on}; (B) every SCMP type 0..255 (and truncated SCMP headers) as the " +
-		"offender's L4 on one representative case per cause and ingress kind; (C) size sweep: paths stretched to every hop count up to 64, offender " +
+		"traceroute request, SCMP error 4.51 / 127.255, SCMP informational 128.255} x {single,multi BR} x SCMP auth {off,on}; (B) every SCMP type 0..255 (and truncated SCMP headers) as the " +
+		"offender's L4 on one representative case per cause and ingress kind, plus the boundary of the type space {0,1,2,4,5,6,100,126,127 | " +
+		"128,129,130,131,200,255} x codes {0,1,255} x SCMP bodies {24,4,0 bytes, header cut after 2/3 bytes}: types < 128 are never answered " +
+		"whatever the code, every informational type/code is answered by at least one cause; (C) size sweep: paths stretched to every hop count up to 64, offender " +
 		"source host {IPv4, IPv6, service} x destination host {IPv4, IPv6, service} x router address {IPv4, IPv6}, payload sizes putting the reply at " +
 		"1232-2..1232+2 plus 0/1/1500/max, all SCMP header sizes (8/20/28), auth on/off; sweep A also rotates the offender's address kinds and is " +
 		"repeated with the IPv6 router address. " +
@@ -1476,8 +1478,10 @@ func TestC09(t *testing.T) {
 			}
 		}
 		if len(unanswered) > 0 && tcRep["128.0"]+tcRep["255.0"]+tcRep["200.0"] > 0 && !r.OutOfBudget() {
-			r.Violation("informational-scmp-offender-never-answered", map[string]any{"type.code": unanswered,
-				"observed": "no cause of the type sweep produced an SCMP error for these informational offenders, while other informational types/codes are answered"})
+			// recorded only: the statement constrains the errors that are generated and forbids answering SCMP errors;
+			// it does not demand that informational offenders are answered
+			r.Extra["informational_scmp_offenders_never_answered"] = unanswered
+			fmt.Printf("OBSERVATION property=C09 informational SCMP offenders never answered with an error by any cause: %v\n", unanswered)
 		}
 		bt := map[string]int64{}
 		for _, typ := range c09BoundaryTypes {
@@ -1522,6 +1526,7 @@ func TestC09(t *testing.T) {
 		"last hop with foreign destination ISD-AS: code 34 or 35 accepted (scmp.rst recommends 35 with SHOULD)",
 		"reply path: must be the offender's hop/info fields reversed with consistent pointers; whether its SegID/current hop let it travel back is C10's subject and not judged here",
 		"authenticator: recomputed with an own AES-CMAC over the input of authenticator-option.rst under the fake DRKey provider's AS-host key; traffic classes on which the doc's and the implementation's reading of 'TC without ECN' differ (C21's subject) accept both readings and are counted separately",
+		"error vs informational SCMP offender is decided by the type alone (0..127 error, assigned or not; 128..255 informational), never by the code; whether informational offenders are answered is recorded per boundary type/code (coverage.replies_per_boundary_scmp_type_code, informational_scmp_offenders_never_answered), not judged",
 		"maximal quoting ('as much as possible') is recorded (coverage.quotes_shorter_than_possible), not judged: the statement only bounds the size",
 		"forwarding key, addresses and payload bytes are fixed constants; two router host addresses (one IPv4, one IPv6)",
 	}
